@@ -402,7 +402,7 @@ Qed.
 
 Lemma eprec_real_lvl x : isreal x = true ->
   (5 <= elvl x)%nat /\ ((50 <= eprec x)%Z -> (6 <= elvl x)%nat) /\ ((60 <= eprec x)%Z -> (8 <= elvl x)%nat) /\
-  ((61 <= eprec x)%Z -> (9 <= elvl x)%nat).
+  ((61 <= eprec x)%Z -> (9 <= elvl x)%nat) /\ ((51 <= eprec x)%Z -> (7 <= elvl x)%nat).
 Proof.
   destruct x; cbn [isreal is_boolkind negb]; try discriminate; intros _; cbn [elvl eprec prec].
   - destruct (qneg q); [repeat split; intros; lia|]. destruct (Z.eqb k 1); repeat split; intros; lia.
@@ -931,65 +931,40 @@ Section Main.
   Notation brk_spec my := (fun x p => wb p = true /\ (forall v, ev x = Some v -> pev p = Some v) /\
                         (lvl p = 9%nat \/ ((my <= eprec x)%Z /\ (elvl x <= lvl p)%nat))).
 
-  Lemma single_den_level my b b_str0 : Forall2 (brk_spec my) (map fst b) b_str0 ->
-    Forall (fun yf => okb (fst yf) = true) b -> den_bad my b = false ->
-    match map (fun ip => paren_n (wraps b (fst ip)) (snd ip)) (combine (seq 0 (length b_str0)) b_str0) with
-    | [d] => (7 <= lvl d)%nat
-    | _ => True
-    end.
+  Lemma den_list_lvl7 xs ps : okl xs -> Forall2 (brk_spec 51%Z) xs ps -> Forall (fun p => (7 <= lvl p)%nat) ps.
   Proof.
-    intros H Hok Hbad. destruct b as [|[x fl] [|y b']]; cbn [map fst] in H.
-    - inversion H; subst. exact I.
-    - inversion H as [|x0 p0 l0 ps0 [H1 [H2 H3]] Hr]; subst. inversion Hr; subst.
-      cbn [length seq combine map fst snd]. unfold wraps. cbn [filter fst snd first_index].
-      rewrite expr_eqb_refl. cbn [Nat.eqb]. destruct fl; cbn [andb length paren_n lvl]; [lia|].
-      cbn [den_bad negb andb] in Hbad. inversion Hok as [|yf0 l1 Hokx _]; subst. cbn [fst] in *. destruct (okb_split _ Hokx) as [Hreal _].
-      destruct H3 as [E|[E1 E2]]; [lia|]. apply Z.leb_le in E1. rewrite E1 in Hbad. cbn [andb] in Hbad.
-      apply Z.ltb_ge in Hbad. pose proof (eprec_real_lvl x Hreal) as [_ [_ [L8 _]]]. specialize (L8 Hbad). lia.
-    - inversion H as [|x0 p0 l0 ps0 _ Hr]; subst. inversion Hr; subst. exact I.
+    intros Hok H. induction H as [|x p xs ps [H1 [H2 H3]] Hr I]; [constructor|].
+    inversion Hok; subst. destruct (okb_split _ H4) as [Hreal _].
+    pose proof (eprec_real_lvl x Hreal) as [_ [_ [_ [_ L7]]]]. constructor; [|apply I; assumption].
+    destruct H3 as [E|[E1 E2]]; [lia | specialize (L7 E1); lia].
   Qed.
 
   Lemma elvl_mul_le l : (elvl (EMul l) <= 6)%nat.
   Proof. cbn. destruct l as [|x r]; [lia|]. destruct (is_neg_num x); lia. Qed.
 
-  Lemma paren_list b_str b_str0 : Forall2 (fun p' p => exists k, p' = paren_n k p) b_str b_str0 ->
-    Forall wl6 b_str0 -> Forall wl6 b_str /\ (forall rs, pvals b_str0 rs -> pvals b_str rs).
-  Proof.
-    induction 1 as [|p' p l' l [k ->] Hr IH]; intros Hf.
-    - split; [constructor|]. intros rs Hv. inversion Hv. constructor.
-    - inversion Hf as [|p0 l0 [W1 W2] Hf']; subst. destruct (IH Hf') as [I1 I2].
-      destruct (paren_n_props fsem psem csem vsem k p) as [P1 [P2 P3]]. split.
-      + constructor; [|exact I1]. split; [rewrite P1; exact W1|]. destruct P3 as [E|[_ E]]; [lia | rewrite E; exact W2].
-      + intros rs Hv. inversion Hv; subst. constructor; [rewrite P2; assumption | apply I2; assumption].
-  Qed.
-
   Lemma case_mul n l p : IHn n -> pp (S n) (EMul l) = Ok p -> printable (EMul l) = true -> good (EMul l) p.
   Proof.
     intros IH Hp Hpr. rewrite pp_mul in Hp.
-    destruct (mul_split l) as [[[sign my] items]|] eqn:Hs; [|discriminate].
-    cbn [printable] in Hpr. apply andb_prop in Hpr. destruct Hpr as [Hall Hmok]. apply forallb_Forall in Hall.
-    destruct (mul_split_spec _ _ _ _ Hs Hall) as [Hitems Hvals].
-    destruct (mul_split_my _ _ _ _ Hs Hmok) as [Hmy Hden].
+    destruct (mul_split l) as [[sign items]|] eqn:Hs; [|discriminate].
+    cbn [printable] in Hpr. apply forallb_Forall in Hpr.
+    destruct (mul_split_spec _ _ _ Hs Hpr) as [Hitems Hvals].
     destruct (classify_all_ok _ Hitems) as [Ha Hb].
     cbv zeta in Hp.
     set (a := concat (map fst (map classify items))) in *.
     set (b := concat (map snd (map classify items))) in *.
     set (a' := match a with [] => [ENum 0 (qint 1)] | _ => a end) in *.
     apply rbind_ok in Hp. destruct Hp as [a_str [Hca Hp]].
-    apply rbind_ok in Hp. destruct Hp as [b_str0 [Hcb Hp]]. inversion Hp; subst p. clear Hp.
+    apply rbind_ok in Hp. destruct Hp as [b_str [Hcb Hp]]. inversion Hp; subst p. clear Hp.
     assert (Ha' : okl a' /\ a' <> []).
     { unfold a'. destruct a; [split; [constructor; [reflexivity | constructor] | discriminate] | split; [exact Ha | discriminate]]. }
     destruct Ha' as [Ha'1 Ha'2].
-    pose proof (brk_list n my a' IH Hmy Ha'1 _ Hca) as Fa.
-    destruct (brk_list_wl6 my a' a_str Hmy Ha'1 Fa) as [Wa Va].
-    assert (Hbf : okl (map fst b)) by (apply Forall_map; exact Hb).
-    rewrite <- (map_map fst (brk n my)) in Hcb.
-    pose proof (brk_list n my (map fst b) IH Hmy Hbf _ Hcb) as Fb.
-    destruct (brk_list_wl6 my (map fst b) b_str0 Hmy Hbf Fb) as [Wb0 Vb0].
-    pose proof (single_den_level my b b_str0 Fb Hb Hden) as Hsingle.
-    pose proof (wraps_map (wraps b) b_str0 0) as Hw.
-    set (b_str := map (fun ip => paren_n (wraps b (fst ip)) (snd ip)) (combine (seq 0 (length b_str0)) b_str0)) in *.
-    destruct (paren_list b_str b_str0 Hw Wb0) as [Wb Vb].
+    pose proof (brk_list n 50 a' IH ltac:(lia) Ha'1 _ Hca) as Fa.
+    destruct (brk_list_wl6 50 a' a_str ltac:(lia) Ha'1 Fa) as [Wa Va].
+    pose proof (brk_list n 51 b IH ltac:(lia) Hb _ Hcb) as Fb.
+    destruct (brk_list_wl6 51 b b_str ltac:(lia) Hb Fb) as [Wb Vb].
+    pose proof (den_list_lvl7 b b_str Hb Fb) as L7.
+    assert (Hsingle : match b_str with [d] => (7 <= lvl d)%nat | _ => True end).
+    { destruct b_str as [|d [|d2 r]]; try exact I. inversion L7; subst. assumption. }
     assert (Hne : a_str <> []). { clear - Fa Ha'2. clearbody a'. intros ->. apply Ha'2. inversion Fa. reflexivity. }
     destruct (mk_mul_good sign a_str b_str Hne Wa Wb Hsingle) as [M1 [M2 M3]].
     split; [exact M1|]. split; [pose proof (elvl_mul_le l); lia|].
@@ -1003,7 +978,7 @@ Section Main.
         rewrite Q2R_qint. unfold rprod. cbn. ring.
       - exists ra. split; [exact Vra | reflexivity]. }
     destruct Hra' as [ra' [Vra' Era']].
-    destruct (M3 ra' rb (Va _ Vra') (Vb _ (Vb0 _ Vrb)) Hnz) as [w [E1 E2]].
+    destruct (M3 ra' rb (Va _ Vra') (Vb _ Vrb) Hnz) as [w [E1 E2]].
     rewrite E1. f_equal. f_equal. rewrite E2, Eprod, Eq, Era'. destruct sign; reflexivity.
   Qed.
 
@@ -1068,7 +1043,7 @@ Section Main.
       | None => Unm
       end
     else if is_negone x then rbind (brk n 60 b) (fun pb => Ok (PNary KProd (PNum 1) [(false, pb)]))
-    else rbind (brk n 60 b) (fun pb => rbind (brk n 60 x) (fun px => Ok (PPow pb px))).
+    else rbind (brk n 61 b) (fun pb => rbind (brk n 60 x) (fun px => Ok (PPow pb px))).
   Proof. reflexivity. Qed.
 
   Lemma ratexp_val x q0 : (match x with ENum 1 q => Qeq_bool q q0 | _ => false end) = true ->
@@ -1086,8 +1061,8 @@ Section Main.
   Lemma case_pow n b x p : IHn n -> pp (S n) (EPow b x) = Ok p -> printable (EPow b x) = true -> good (EPow b x) p.
   Proof.
     intros IH Hp Hpr. rewrite pp_pow in Hp. cbn [printable] in Hpr.
-    repeat (apply andb_prop in Hpr; destruct Hpr as [Hpr ?]). rename Hpr into Rb, H2 into Rx, H1 into Pb, H0 into Px, H into Hf.
-    apply negb_true_iff in Hf. unfold good. cbn [elvl].
+    repeat (apply andb_prop in Hpr; destruct Hpr as [Hpr ?]). rename Hpr into Rb, H1 into Rx, H0 into Pb, H into Px.
+    unfold good. cbn [elvl].
     destruct (is_half x) eqn:Eh.
     - destruct (slookup function_names "sqrt") as [s|] eqn:Es; [|discriminate].
       apply rbind_ok in Hp. destruct Hp as [pb [Hb Hp]]. inversion Hp; subst p. destruct (IH _ _ Hb Pb) as [G1 [G2 G3]].
@@ -1106,7 +1081,7 @@ Section Main.
         rewrite pev_nary. cbn [nary_sem mapped map fold_left fst snd pyeval oreals].
         rewrite (sqrt_lookup_spec _ Es), (G3 _ Hvb). cbn [oreals meaning_sem]. rewrite Ew. cbn [option_map].
         unfold prod_step. cbn [fst snd]. destruct (Req_EM_T w 0); [contradiction|]. f_equal. f_equal. ring.
-      + destruct (eprec_real_lvl b Rb) as [_ [_ [L8 L9]]]. destruct (is_negone x) eqn:E1.
+      + destruct (eprec_real_lvl b Rb) as [_ [_ [L8 [L9 _]]]]. destruct (is_negone x) eqn:E1.
         * apply rbind_ok in Hp. destruct Hp as [pb [Hb Hp]]. inversion Hp; subst p.
           destruct (br_good n 60 b pb IH Hb Pb) as [G1 [G2 G3]].
           assert (7 <= lvl pb)%nat by (destruct G3 as [E|[E E']]; [lia | specialize (L8 E); lia]).
@@ -1120,9 +1095,9 @@ Section Main.
           rewrite pev_nary. cbn [nary_sem mapped map fold_left fst snd pyeval]. rewrite (G2 _ Hvb).
           unfold prod_step. cbn [fst snd]. destruct (Req_EM_T rb 0); [contradiction|]. f_equal. f_equal. ring.
         * apply rbind_ok in Hp. destruct Hp as [pb [Hb Hp]]. apply rbind_ok in Hp. destruct Hp as [px [Hx Hp]]. inversion Hp; subst p.
-          destruct (br_good n 60 b pb IH Hb Pb) as [G1 [G2 G3]]. destruct (br_good n 60 x px IH Hx Px) as [K1 [K2 K3]].
+          destruct (br_good n 61 b pb IH Hb Pb) as [G1 [G2 G3]]. destruct (br_good n 60 x px IH Hx Px) as [K1 [K2 K3]].
           destruct (eprec_real_lvl x Rx) as [_ [_ [X8 _]]].
-          assert (9 <= lvl pb)%nat by (destruct G3 as [E|[E E']]; [lia | specialize (L9 E Hf); lia]).
+          assert (9 <= lvl pb)%nat by (destruct G3 as [E|[E E']]; [lia | specialize (L9 E); lia]).
           assert (7 <= lvl px)%nat by (destruct K3 as [E|[E E']]; [lia | specialize (X8 E); lia]).
           split; [cbn [wb]; rewrite G1, K1; apply Nat.leb_le in H, H0; rewrite H, H0; reflexivity|].
           split; [cbn; lia|].
@@ -1415,82 +1390,35 @@ Section Main.
   Qed.
 End Main.
 
-(* ---- the excluded shapes are genuine: same text, different meaning (F10, F17) -------------------- *)
-Definition psem_t (x y : R) : option R :=
-  if Req_EM_T y 2 then Some (x * x)%R
-  else if Req_EM_T y 3 then Some (x * x * x)%R
-  else if Req_EM_T y (-1) then (if Req_EM_T x 0 then None else Some (/ x)%R)
-  else None.
-Definition vsem_t (v : Z) : option R := if Z.eqb v 1 then Some 3%R else Some 2%R.
-Definition none1 (_ : Z) : option R := None.
-Definition eval_t : expr -> option value :=
-  eval (fun _ _ => None) psem_t none1 (fun _ _ _ => None) vsem_t (fun _ _ => None).
-
-Lemma psem_t_2 x : psem_t x 2 = Some (x * x)%R.
-Proof. unfold psem_t. destruct (Req_EM_T 2 2); [reflexivity | contradiction]. Qed.
-Lemma psem_t_3 x : psem_t x 3 = Some (x * x * x)%R.
-Proof. unfold psem_t. destruct (Req_EM_T 3 2); [lra|]. destruct (Req_EM_T 3 3); [reflexivity | contradiction]. Qed.
-Lemma psem_t_9 x : psem_t x (3 * 3) = None.
-Proof.
-  unfold psem_t. destruct (Req_EM_T (3 * 3) 2); [lra|]. destruct (Req_EM_T (3 * 3) 3); [lra|].
-  destruct (Req_EM_T (3 * 3) (-1)); [lra | reflexivity].
-Qed.
-Lemma psem_t_m1 x : x <> 0%R -> psem_t x (Q2R (-1 # 1)) = Some (/ x)%R.
-Proof.
-  intros Hx. unfold psem_t, Q2R. cbn [Qnum Qden].
-  destruct (Req_EM_T (-1 * / 1) 2); [lra|]. destruct (Req_EM_T (-1 * / 1) 3); [lra|].
-  destruct (Req_EM_T (-1 * / 1) (-1)); [|lra]. destruct (Req_EM_T x 0); [contradiction | reflexivity].
-Qed.
-
-Definition refutes (e1 e2 : expr) (v1 v2 : option value) : Prop :=
-  exists p1 p2, doprint e1 = Ok p1 /\ doprint e2 = Ok p2 /\ text p1 = text p2 /\
-                wb p1 = false /\ printable (pre e1) = false /\ printable (pre e2) = true /\
-                eval_t e1 = v1 /\ eval_t e2 = v2 /\ v1 <> v2.
+(* ---- regression witnesses of the repaired defects F10a / F10b / F17: the two trees that used to be printed with the
+   same text are now printed with different, well-bracketed texts (their values are covered by print_value) ---- *)
+Definition now_distinct (e1 e2 : expr) : Prop :=
+  exists p1 p2, doprint e1 = Ok p1 /\ doprint e2 = Ok p2 /\ wb p1 = true /\ wb p2 = true /\
+                printable (pre e1) = true /\ printable (pre e2) = true /\ text p1 <> text p2.
 
 Definition v0 := EVar 0. Definition v1 := EVar 1. Definition v2 := EVar 2.
 Definition m1 := ENum 0 (-1 # 1).
 
-(* (x**y)**z and x**(y**z) are both printed  v0**v1**v2 *)
-Lemma pow_tower_refuted :
-  refutes (EPow (EPow v0 v1) v2) (EPow v0 (EPow v1 v2)) (Some (VR (2 * 2 * 2 * (2 * 2 * 2)))) None.
-Proof.
-  eexists. eexists. split; [vm_compute; reflexivity|]. split; [vm_compute; reflexivity|].
-  split; [vm_compute; reflexivity|]. split; [vm_compute; reflexivity|].
-  split; [vm_compute; reflexivity|]. split; [vm_compute; reflexivity|].
-  split; [|split; [|discriminate]].
-  - unfold eval_t, v0, v1, v2. cbn -[psem_t Rmult Rplus Rinv Q2R IZR]. rewrite psem_t_3. cbn -[psem_t Rmult Rplus Rinv Q2R IZR]. rewrite psem_t_2. reflexivity.
-  - unfold eval_t, v0, v1, v2. cbn -[psem_t Rmult Rplus Rinv Q2R IZR]. rewrite psem_t_2. cbn -[psem_t Rmult Rplus Rinv Q2R IZR]. rewrite psem_t_9. reflexivity.
-Qed.
+Ltac distinct_tac :=
+  eexists; eexists; split; [vm_compute; reflexivity|]; split; [vm_compute; reflexivity|];
+  split; [vm_compute; reflexivity|]; split; [vm_compute; reflexivity|];
+  split; [vm_compute; reflexivity|]; split; [vm_compute; reflexivity|];
+  let H := fresh in intros H; vm_compute in H; discriminate H.
 
-(* unevaluated -(x + y) and (-x) + y are both printed  -v0 + v1 *)
-Lemma negated_sum_refuted :
-  refutes (EMul [m1; EAdd [v0; v1]]) (EAdd [EMul [m1; v0]; v1])
-          (Some (VR (Q2R (-1 # 1) * ((2 + (3 + 0)) * 1)))) (Some (VR (Q2R (-1 # 1) * (2 * 1) + (3 + 0)))).
-Proof.
-  eexists. eexists. split; [vm_compute; reflexivity|]. split; [vm_compute; reflexivity|].
-  split; [vm_compute; reflexivity|]. split; [vm_compute; reflexivity|].
-  split; [vm_compute; reflexivity|]. split; [vm_compute; reflexivity|].
-  split; [reflexivity|]. split; [reflexivity|].
-  intros H. inversion H as [H1]. unfold Q2R in H1. cbn [Qnum Qden] in H1. lra.
-Qed.
+(* (x**y)**z is printed (v0**v1)**v2, x**(y**z) is printed v0**v1**v2 *)
+Lemma pow_tower_fixed : now_distinct (EPow (EPow v0 v1) v2) (EPow v0 (EPow v1 v2)).
+Proof. distinct_tac. Qed.
 
-(* unevaluated x / (1 / y) and (x / 1) / y are both printed  v0 / 1 / v1 *)
-Lemma single_denominator_refuted :
-  refutes (EMul [v0; EPow (EPow v1 m1) m1]) (EMul [EMul [v0; EPow (ENum 0 (1 # 1)) m1]; EPow v1 m1])
-          (Some (VR (2 * (/ / 3 * 1)))) (Some (VR (2 * (/ Q2R (1 # 1) * 1) * (/ 3 * 1)))).
-Proof.
-  assert (H3 : (/ 3 <> 0)%R) by lra.
-  assert (H1 : Q2R (1 # 1) <> 0%R) by (unfold Q2R; cbn; lra).
-  eexists. eexists. split; [vm_compute; reflexivity|]. split; [vm_compute; reflexivity|].
-  split; [vm_compute; reflexivity|]. split; [vm_compute; reflexivity|].
-  split; [vm_compute; reflexivity|]. split; [vm_compute; reflexivity|].
-  split; [|split].
-  - unfold eval_t, v0, v1, m1. cbn -[psem_t Rmult Rplus Rinv Q2R IZR]. rewrite psem_t_m1 by lra. cbn -[psem_t Rmult Rplus Rinv Q2R IZR].
-    rewrite psem_t_m1 by exact H3. reflexivity.
-  - unfold eval_t, v0, v1, m1. cbn -[psem_t Rmult Rplus Rinv Q2R IZR]. rewrite psem_t_m1 by exact H1. cbn -[psem_t Rmult Rplus Rinv Q2R IZR].
-    rewrite psem_t_m1 by lra. reflexivity.
-  - intros H. inversion H as [H0]. unfold Q2R in H0. cbn [Qnum Qden] in H0. rewrite Rinv_inv in H0. lra.
-Qed.
+(* unevaluated -(x + y) is printed -(v0 + v1), (-x) + y is printed -v0 + v1 *)
+Lemma negated_sum_fixed : now_distinct (EMul [m1; EAdd [v0; v1]]) (EAdd [EMul [m1; v0]; v1]).
+Proof. distinct_tac. Qed.
+
+(* unevaluated x / (1 / y) is printed v0 / (1 / v1), (x / 1) / y is printed v0 / 1 / v1 *)
+Lemma single_denominator_fixed :
+  now_distinct (EMul [v0; EPow (EPow v1 m1) m1]) (EMul [EMul [v0; EPow (ENum 0 (1 # 1)) m1]; EPow v1 m1]).
+Proof. distinct_tac. Qed.
+
+Definition none1 (_ : Z) : option R := None.
 
 (* ---- the premises are satisfiable --------------------------------------------------------------- *)
 (* real powers for positive bases, x**1 = x and x**-1 = 1/x everywhere *)
